@@ -635,6 +635,7 @@ func TestWireMut(t *testing.T) {
 		n       int
 	}
 	aggs := map[string]*agg{}
+	driftKeys := map[string]int{}
 	note := func(sig string, m *jobMeta, detail string) {
 		a := aggs[sig]
 		if a == nil {
@@ -675,6 +676,7 @@ func TestWireMut(t *testing.T) {
 				} else if m.exp == "error" {
 					res.Add("drift_expected_error_got_value", 1)
 					res.Seen("drift", m.dec+"|"+m.class)
+					driftKeys["expected error, decoded a value: "+m.dec+"|"+m.class]++
 				}
 				if r.Re != "" {
 					res.Add("decoded_value_unusable", 1)
@@ -683,8 +685,15 @@ func TestWireMut(t *testing.T) {
 			} else if m.exp == "value" {
 				res.Add("drift_expected_value_got_error", 1)
 				res.Seen("drift", m.dec+"|"+m.class+"|refused")
+				driftKeys["expected a value, refused: "+m.dec+"|"+m.class]++
+				if driftKeys["expected a value, refused: "+m.dec+"|"+m.class] == 1 {
+					res.Note("first refusal %s|%s: %s", m.dec, m.class, r.Detail)
+				}
 			}
 		}
+	}
+	for k, n := range driftKeys {
+		res.Note("conformance drift (no verdict): %s x%d", k, n)
 	}
 	var sigs []string
 	for s := range aggs {
